@@ -170,6 +170,7 @@ class OutgoingRIB(Cache):
             self.add_to_rib(route, True)
 
         for index in list(indexed):
+            self._forget_watchdog(index)
             self.del_from_rib(indexed.pop(index))
 
     def replace_reload(self, previous: list[Route], new: list[Route]) -> None:
@@ -183,23 +184,44 @@ class OutgoingRIB(Cache):
 
         for route in new:
             if indexed.pop(route.index(), None) is None:
-                self.add_to_rib(route, True)
+                # a route held back by its watchdog is not announced by a reload either
+                if not self._held_back(route.index()):
+                    self.add_to_rib(route, True)
                 continue
 
         for index in list(indexed):
+            self._forget_watchdog(index)
             self.del_from_rib(indexed.pop(index))
+
+    def _held_back(self, index: bytes) -> bool:
+        # written 'watchdog <name> withdraw' (or withdrawn by its watchdog): waits for 'announce watchdog <name>'
+        return any(index in group.get('-', {}) for group in self._watchdog.values())
+
+    def _forget_watchdog(self, index: bytes) -> bool:
+        # True if the route was announced by a watchdog
+        announced = False
+        for group in self._watchdog.values():
+            announced = group.get('+', {}).pop(index, None) is not None or announced
+            group.get('-', {}).pop(index, None)
+        return announced
 
     def add_to_rib_watchdog(self, route: Route) -> bool:
         if not self.enabled:
             return False
         watchdog = route.attributes.watchdog()
         withdraw = route.attributes.withdraw()
+        index = route.index()
+        # what an earlier configuration said of this route no longer holds (reload)
+        announced = self._forget_watchdog(index)
         if watchdog:
             name = watchdog.name
             if withdraw:
-                self._watchdog.setdefault(name, {}).setdefault('-', {})[route.index()] = route
+                self._watchdog.setdefault(name, {}).setdefault('-', {})[index] = route
+                # held back from now on: after a reload the peer may well have the route
+                if announced or index in self._seen.get(route.nlri.family().afi_safi(), {}):
+                    self.del_from_rib(route)
                 return True
-            self._watchdog.setdefault(name, {}).setdefault('+', {})[route.index()] = route
+            self._watchdog.setdefault(name, {}).setdefault('+', {})[index] = route
         self.add_to_rib(route)
         return True
 
